@@ -230,7 +230,7 @@ Definition mk_node (id : nid) (et ld : N) : node :=
   {| n_id := id; n_et := et; n_ld := ld; n_pterm := 0; n_pvote := None; n_term := 0; n_vote := None;
      n_log := [entry0]; n_snaps := []; n_partial := None; n_open := true; n_role := Shutdown;
      n_commit := 0; n_applied := 0; n_lii := 0; n_lit := 0; n_conf := None; n_cconf := None; n_leader := None;
-     n_followers := []; n_pending := []; n_ro := []; n_should_verify := true; n_hb_rounds := 0; n_lease := 0; n_contact := 0;
+     n_followers := []; n_pending := []; n_ro := []; n_should_verify := true; n_cfg_fid := None; n_hb_rounds := 0; n_lease := 0; n_contact := 0;
      n_rounds := []; n_next_round := 0; n_tasks := []; n_cv := conds0; n_iswait := []; n_fsm := [];
      n_snap_every := 0; n_budget := None; n_frozen := false; n_out := Ok; n_results := []; n_applies := [] |}.
 
